@@ -266,7 +266,7 @@ def job_ops(ctx, family, opname, mode, rep, dkind="exact", fmt=3, ranges=None, r
     return sym_run("ops[%s,%s,%s,%s,%s,fmt%s]" % (family, opname, mode, rep, dkind, fmt), make, pre, body, post, case_of,
                    ranges=ranges, pins=pins, scenarios=lambda i: {"family:" + family: True},
                    bounds={"years": "400K+%d, K in 4..5" % res, "offsets": "+-3:59", "durations": dkind}, sample_every=200,
-                   budget_s=120)
+                   budget_s=300)
 
 
 # ---------------------------------------------------------------------------
@@ -403,7 +403,8 @@ def jobs(tier):
         for op in recurrence_ops(dummy):
             for fmt in (1, 3, 4, 0):
                 J.append(("job_ops", dict(family="recurrence", opname=op, mode=mode, rep="ord", fmt=fmt,
-                                          ranges={"DOYr": (364, 366), "DOYs": (364, 366), "DOYq": (1, 3)})))
+                                          ranges={"DOYr": (364, 366), "DOYs": (364, 366), "DOYq": (1, 3), "hd": (-13, 13),
+                                                  "dd": (-1, 1)})))
     return J
 
 
